@@ -483,7 +483,7 @@ func Run(cfg fw.Config, rec *fw.Rec) {
 		names := a.NodeNames()
 		var msgs []interface{}
 		for k := r.Intn(5); k > 0; k-- {
-			msgs = append(msgs, gen.GenMessage(r, u.Next("m"), names))
+			msgs = append(msgs, gen.GenAnyMessage(r, u.Next("m"), names))
 		}
 		cd := &caseDesc{Spec: a, Render: render, State: ref.AState{Node: "start", Bs: gen.GenBindings(r, names)}, Pending: msgs, Limit: []int{1, 3, 50}[r.Intn(3)], Op: "walk"}
 		if r.Intn(4) == 0 {
